@@ -9,6 +9,7 @@ import (
 	"encoding/hex"
 	"encoding/json"
 	"fmt"
+	"github.com/luthersystems/elps/lisp"
 	"os"
 	"os/exec"
 	"regexp"
@@ -31,6 +32,13 @@ func transcript(src string) string {
 	var b strings.Builder
 	if o.IsErr {
 		fmt.Fprintf(&b, "ERR cond=%s msg=%q full=%q", o.Cond, o.Msg, o.Val.String())
+		// what a Go host reads: err.Error() and the stack trace
+		fmt.Fprintf(&b, " goerr=%q trace=", (*lisp.ErrorVal)(o.Val).Error())
+		if st := o.Val.CallStack(); st != nil {
+			for _, f := range st.Frames {
+				fmt.Fprintf(&b, "[%s:%s]", f.Package, f.Name)
+			}
+		}
 	} else {
 		fmt.Fprintf(&b, "VAL %s", o.Text)
 	}
@@ -39,6 +47,21 @@ func transcript(src string) string {
 		fmt.Fprintf(&b, "%s|%s|%d\n", e.Tag, e.Payload, e.Steps)
 	}
 	return b.String()
+}
+
+// The names of anonymous schema validators come from a process-wide counter
+// (libschema.GenSymbol, a documented design decision): a difference that
+// disappears when those names are masked gets its own key, so that it can be
+// listed as a known finding without hiding any other difference.
+var validatorName = regexp.MustCompile(`_validation_fun_\d+`)
+
+func maskValidators(s string) string { return validatorName.ReplaceAllString(s, "_validation_fun_N") }
+
+func differKey(base, a, b string) string {
+	if a != b && maskValidators(a) == maskValidators(b) {
+		return base + "/anonymous-validator-name"
+	}
+	return base
 }
 
 var ptrShaped = regexp.MustCompile(`0x[0-9a-f]{6,}|\(\*[a-zA-Z.]+\)\(0x`)
@@ -111,7 +134,28 @@ func (g *dg) val(depth int) string {
 
 func (g *dg) form() string {
 	v := g.val(3)
-	switch g.n(0, 22, "form") {
+	switch g.n(0, 27, "form") {
+	case 26:
+		// an anonymous schema validator fails: its generated name shows up in
+		// the Go error string and the stack trace
+		return fmt.Sprintf("(progn %s (handler-bind ((condition (lambda (c &rest d) (probe 1 c d)))) (%s 1 2)))",
+			strings.Repeat("(s:gt 1) ", g.n(0, 3, "nvalidators")), g.pick("anon", "(s:gt 5)", "(s:len 2)", "(s:in 1 2)", "(s:has-key \"k\")"))
+	case 27:
+		return fmt.Sprintf("(progn %s((%s) 1 2))", strings.Repeat("(s:lt 1) ", g.n(0, 3, "nvalidators")), g.pick("anon", "s:gt 5", "s:len 2", "s:in 1 2", "s:not s:int"))
+	case 23:
+		// a runtime-wide JSON mode switch: it must stay inside THIS runtime
+		return fmt.Sprintf("(json:%s %s)", g.pick("jsw", "use-exact-integers", "use-string-numbers"), g.pick("jswv", "true", "true", "false"))
+	case 24, 25:
+		// numbers whose decoding/encoding depends on the JSON mode in effect
+		switch g.n(0, 2, "jnum") {
+		case 0:
+			return fmt.Sprintf("(handler-bind ((condition (lambda (c &rest d) (probe 1 c d)))) (json:load-string \"%s\"))",
+				g.pick("jdoc", "9007199254740993", "[12345678901234567, 1.5, 2, -9007199254740993]", "{\\\"n\\\":123456789012345678,\\\"f\\\":1e2}", "1e400", "12345678901234567890"))
+		case 1:
+			return fmt.Sprintf("(json:dump-string (list 9007199254740993 2.5 1e21 -7 %s))", g.val(1))
+		default:
+			return fmt.Sprintf("(json:load-string (json:dump-string (sorted-map \"n\" 9007199254740993 \"f\" 0.1 \"v\" %s)))", g.val(1))
+		}
 	case 0:
 		return v
 	case 1:
@@ -231,7 +275,7 @@ func checkRepeat(cs Case, c *vcommon.Ctx) *vcommon.Failure {
 	// (a) repeated fresh runtimes
 	for i := 0; i < 4; i++ {
 		if ti := transcript(cs.P.Src); ti != t0 {
-			return vcommon.Failf("repeat/differs", "two fresh runtimes gave different transcripts for the same source\n%s\n--- first:\n%s\n--- later:\n%s", cs.P.Src, t0, ti)
+			return vcommon.Failf(differKey("repeat/differs", t0, ti), "two fresh runtimes gave different transcripts for the same source\n%s\n--- first:\n%s\n--- later:\n%s", cs.P.Src, t0, ti)
 		}
 	}
 	// (b) after unrelated activity in other runtimes, on other goroutines too
@@ -246,13 +290,13 @@ func checkRepeat(cs Case, c *vcommon.Ctx) *vcommon.Failure {
 	tConc := transcript(cs.P.Src)
 	wg.Wait()
 	if tConc != t0 {
-		return vcommon.Failf("concurrent/differs", "transcript changed while other runtimes were evaluating on other goroutines\n%s\n--- alone:\n%s\n--- concurrent:\n%s", cs.P.Src, t0, tConc)
+		return vcommon.Failf(differKey("concurrent/differs", t0, tConc), "transcript changed while other runtimes were evaluating on other goroutines\n%s\n--- alone:\n%s\n--- concurrent:\n%s", cs.P.Src, t0, tConc)
 	}
 	if len(cs.Noise) > 0 {
 		c.Class("with-noise")
 	}
 	if tAfter := transcript(cs.P.Src); tAfter != t0 {
-		return vcommon.Failf("after-activity/differs", "transcript changed after unrelated activity in the same process\n%s\n--- before:\n%s\n--- after:\n%s", cs.P.Src, t0, tAfter)
+		return vcommon.Failf(differKey("after-activity/differs", t0, tAfter), "transcript changed after unrelated activity in the same process\n%s\n--- before:\n%s\n--- after:\n%s", cs.P.Src, t0, tAfter)
 	}
 	return nil
 }
@@ -291,7 +335,8 @@ func TestTranscriptChild(t *testing.T) {
 	}
 	w := bufio.NewWriter(os.Stdout)
 	for i, p := range batch.Progs {
-		fmt.Fprintf(w, "C10DIGEST %d %s\n", i, digest(transcript(p.Src)))
+		tr := transcript(p.Src)
+		fmt.Fprintf(w, "C10DIGEST %d %s %s\n", i, digest(tr), digest(maskValidators(tr)))
 	}
 	w.Flush()
 }
@@ -306,9 +351,9 @@ func childDigests(path string, gomaxprocs int) (map[int]string, error) {
 	res := map[int]string{}
 	for _, line := range strings.Split(string(out), "\n") {
 		var i int
-		var d string
-		if n, _ := fmt.Sscanf(line, "C10DIGEST %d %s", &i, &d); n == 2 {
-			res[i] = d
+		var d, dm string
+		if n, _ := fmt.Sscanf(line, "C10DIGEST %d %s %s", &i, &d, &dm); n == 3 {
+			res[i] = d + " " + dm
 		}
 	}
 	return res, nil
@@ -330,7 +375,8 @@ func checkProcess(b Batch, c *vcommon.Ctx) *vcommon.Failure {
 	f.Close()
 	local := map[int]string{}
 	for i, p := range b.Progs {
-		local[i] = digest(transcript(p.Src))
+		tr := transcript(p.Src)
+		local[i] = digest(tr) + " " + digest(maskValidators(tr))
 	}
 	for _, procs := range []int{1, runtime.NumCPU()} {
 		got, err := childDigests(f.Name(), procs)
@@ -340,7 +386,11 @@ func checkProcess(b Batch, c *vcommon.Ctx) *vcommon.Failure {
 		}
 		for i, p := range b.Progs {
 			if got[i] != local[i] {
-				return vcommon.Failf("process/differs", "a separate process (GOMAXPROCS=%d) produced a different transcript (digest %s vs %s)\n%s\n--- here:\n%s", procs, got[i], local[i], p.Src, transcript(p.Src))
+				key := "process/differs"
+				if g, l := strings.Fields(got[i]), strings.Fields(local[i]); len(g) == 2 && len(l) == 2 && g[1] == l[1] {
+					key += "/anonymous-validator-name"
+				}
+				return vcommon.Failf(key, "a separate process (GOMAXPROCS=%d) produced a different transcript (digest %s vs %s)\n%s\n--- here:\n%s", procs, got[i], local[i], p.Src, transcript(p.Src))
 			}
 		}
 	}
@@ -401,7 +451,7 @@ func checkPred(p Pred, c *vcommon.Ctx) *vcommon.Failure {
 	}
 	c.NonTrivial(p.A.Src + "\x00" + p.B.Src + "\x00" + p.V.Src)
 	if t1 != t2 {
-		return vcommon.Failf("predecessor/differs", "the transcript of a program depends on what ANOTHER runtime evaluated just before it in the same process\nprogram:\n%s--- after predecessor A:\n%s\n%s--- after predecessor B:\n%s\n%s", p.V.Src, p.A.Src, t1, p.B.Src, t2)
+		return vcommon.Failf(differKey("predecessor/differs", t1, t2), "the transcript of a program depends on what ANOTHER runtime evaluated just before it in the same process\nprogram:\n%s--- after predecessor A:\n%s\n%s--- after predecessor B:\n%s\n%s", p.V.Src, p.A.Src, t1, p.B.Src, t2)
 	}
 	return nil
 }
